@@ -81,6 +81,16 @@ func authFunc(mode string, party *string, log *simfw.Log, calls *int, sawFull *[
 	}
 }
 
+// validatorOptions: Auth "none" configures the validator without any
+// AuthenticationFunc (a secured operation can then not be validated).
+func validatorOptions(s Spec, auth openapi3filter.AuthenticationFunc) openapi3filter.Options {
+	o := openapi3filter.Options{MultiError: s.MultiError, AuthenticationFunc: auth}
+	if s.Auth == "none" {
+		o.AuthenticationFunc = nil
+	}
+	return o
+}
+
 func buildRequest(q Req, log *simfw.Log, party *string) (*http.Request, *simenv.Stream) {
 	u := "http://sim.test" + q.Path
 	if q.Query != "" {
@@ -222,7 +232,7 @@ func (Sim) Run(raw json.RawMessage, prop string, keep bool) (res simfw.Result) {
 	case "validator":
 		opts := []openapi3filter.ValidatorOption{
 			openapi3filter.Strict(s.Strict),
-			openapi3filter.ValidationOptions(openapi3filter.Options{MultiError: s.MultiError, AuthenticationFunc: auth}),
+			openapi3filter.ValidationOptions(validatorOptions(s, auth)),
 		}
 		switch s.ErrFunc {
 		case "record":
@@ -342,13 +352,16 @@ func (Sim) Run(raw json.RawMessage, prop string, keep bool) (res simfw.Result) {
 
 		// ---- neutral verdict --------------------------------------------
 		nreq := neutralRequest(q)
-		nAuthFails := strings.HasSuffix(s.Auth, "fail")
+		nAuthFails := strings.HasSuffix(s.Auth, "fail") || s.Auth == "none" // without a callback no scheme can be accepted
 		nopts := &openapi3filter.Options{MultiError: s.MultiError && s.Kind == "validator", AuthenticationFunc: func(context.Context, *openapi3filter.AuthenticationInput) error {
 			if nAuthFails {
 				return errors.New("credential rejected")
 			}
 			return nil
 		}}
+		if s.Auth == "none" && s.Kind == "validator" {
+			nopts.AuthenticationFunc = nil
+		}
 		route, pathParams, rerr := neutral.Router.FindRoute(nreq)
 		var verr error
 		var rvi *openapi3filter.RequestValidationInput
